@@ -79,6 +79,9 @@ func skipType(t reflect.Type) bool {
 	if p == "sync" || p == "sync/atomic" || strings.HasPrefix(p, "internal/") {
 		return true
 	}
+	if p == "time" && t.Name() == "Location" {
+		return true // filled lazily by the time package under its own Once; identified by address
+	}
 	// a struct type defined outside the library that carries a sync primitive of its own
 	// (strings.Replacer, a third-party client, ...) synchronises its internal state itself;
 	// that state is not the library's and is not observed
